@@ -14,7 +14,7 @@
 From Coq Require Import ZArith List PrimFloat.
 From DSW Require Import Py Kmer Graph Spec GraphSpec CapacitySpec.
 From DSW Require Capacity.
-From DSW.Proofs Require Import CapacityProofs CapacityFloatProofs.
+From DSW.Proofs Require Import CapacityProofs CapacityFloatProofs CapacityTermProofs.
 Import ListNotations.
 Open Scope Z_scope.
 
@@ -43,8 +43,20 @@ Theorem C17_lower_certificate : forall acc S x p q M, cert_lower acc S x p q = t
   forall n v, In v S -> p ^ Z.of_nat n * xat x v <= walks acc n v * M * q ^ Z.of_nat n.
 Proof. exact cert_lower_sound. Qed.
 
+(* the iteration always stops: at most maximum_iteration + 2 matrix-vector products per repeat, for every graph, tolerance and
+   start vector (the model's fuel is never exhausted), and one or two reported estimates per repeat *)
+Theorem C17_terminates : forall acc tol maxit starts,
+  exists r, Capacity.approximate_capacity acc tol maxit starts = Some r.
+Proof. exact approximate_capacity_terminates. Qed.
+Theorem C17_result_counts : forall acc tol maxit starts res recs,
+  Capacity.approximate_capacity acc tol maxit starts = Some (Some (res, recs)) ->
+  length recs = length starts /\ (length starts <= length res <= 2 * length starts)%nat.
+Proof. exact approximate_capacity_results. Qed.
+
 Print Assumptions C17_le_four.
 Print Assumptions C17_arcless.
 Print Assumptions C17_regular.
 Print Assumptions C17_upper_certificate.
 Print Assumptions C17_lower_certificate.
+Print Assumptions C17_terminates.
+Print Assumptions C17_result_counts.
